@@ -22,6 +22,30 @@ per complex event of a phenomenon with an action, one action event per
 execute() with its name / success / data; halted runs yield nothing; every
 complex / action event re-entered the stream exactly once; all queues empty;
 and per single task update(): a non-empty queue loses exactly one item.
+
+Asynchronous handlers (second D-tie, `bobodrv engineA` = Model/EngineAsync.lean): the same engine built with a REAL
+BoboActionHandlerMultithreading (and, for a quarter of the cases, a real BoboActionHandlerMultiprocessing) whose pool
+is a RecordingPool: `starmap_async(fn, [args])` only records the job, and the harness's operation `complete k` pops
+the k-th recorded job and calls fn(*args) — the real `_pool_execute_action` with the handler's real queue, the real
+action, the complex event and max_size.  Operations: add / update / step <task> as above, `complete k` between two
+calls (k mostly among the jobs in flight and mostly NOT the oldest one, rarely out of range = nothing happens), and
+updates / steps carrying a pool script: completions INSIDE the call, at the linearisation points of the model (before
+each task.update() call of the engine loop and between the forwarder's _update_handler() and _update_responses()),
+realised by instance-level wrappers.  Per operation both sides print the blocking family's line plus the jobs in
+flight (count, then action name @ complex event id in dispatch order) and, for update / step, how much of the pool
+script was not consumed.  Oracle after completing everything in flight and draining: the blocking oracle with the
+execute() calls matched to the complex events as a multiset of objects (each exactly once, any order), one action
+event per execute() in execution order with its name / success / data, every action event re-entered the stream
+exactly once, handler queue and pool empty; one job submitted per complex event of a phenomenon with an action, in
+forwarder order, as _pool_execute_action(handler queue, that action, that event, max_size); per single task update()
+the async variant of "exactly one item".  Signatures of this family are prefixed `async-`.
+Not covered by this family: max_size > 0 of the asynchronous handlers (the model does not cover queue-full
+exceptions, so every max_size is 0: neither the qsize() guard at dispatch nor _pool_execute_action's full-queue branch
+is exercised), actions that raise inside the pool, close() / join().  The multiprocessing handler is covered as far
+as its own code goes (dispatch, argument tuple, queue access) with multiprocessing.Pool AND multiprocessing.Manager
+replaced by in-process doubles during construction: pickling of action / event / response across processes and the
+real manager queue are NOT covered here (C20 monitors real pools).  `async_handler_cases` below still runs real
+thread pools against the oracle alone.
 """
 import itertools
 import json
@@ -221,7 +245,7 @@ class Rig(BoboReceiverSubscriber, BoboDeciderSubscriber, BoboProducerSubscriber,
                 phens_f.append(obj)
         self.fwd_phens = {p.name: p for p in phens_f}
         self.validator = validator_of(case['validator'])
-        self.handler = BoboActionHandlerBlocking()
+        self.handler = self.make_handler(case)
         tR, tD, tP, tF, early = case['cfg']
         if case['build'] == 'simple':
             assert [tR, tD, tP, tF, early] == [0, 0, 0, 0, 1] and all(p['where'] == 'B' for p in case['phens'])
@@ -279,6 +303,20 @@ class Rig(BoboReceiverSubscriber, BoboDeciderSubscriber, BoboProducerSubscriber,
         e = self.eng
         return (e.receiver.size(), e.decider.size(), e.producer.size(), e.forwarder.size(), self.handler.size())
 
+    # -- hooks of the asynchronous family (RigA)
+    def make_handler(self, case):
+        return BoboActionHandlerBlocking()
+
+    def begin_op(self, op):
+        """text inserted in the model line right after the op name (the pool script of an update / step)."""
+        return ''
+
+    def do_other(self, op):
+        raise ValueError(op)
+
+    def out_suffix(self, op):
+        return ''
+
     def do(self, op):
         """run one op on the real engine; returns (op line for the model, canonical output line, step info)"""
         marks = (len(self.published), len(self.complexes), len(self.actions), len(self.exec_log))
@@ -297,20 +335,19 @@ class Rig(BoboReceiverSubscriber, BoboDeciderSubscriber, BoboProducerSubscriber,
                 self.entry_log.append(('raw', d) if op[1] == 'raw' else d)
                 self.eng.receiver.add_data(d)
             elif kind == 'update':
-                line = 'update'
+                line = 'update' + self.begin_op(op)
                 ret = '1' if self.eng.update() else '0'
             elif kind == 'step':
-                line = f'step {op[1]}'
+                line = f'step {op[1]}' + self.begin_op(op)
                 task = {'R': self.eng.receiver, 'D': self.eng.decider, 'P': self.eng.producer, 'F': self.eng.forwarder}[op[1]]
                 ret = '1' if task.update() else '0'
             else:
-                raise ValueError(op)
+                line, err = self.do_other(op)
         except Exception as e:  # an exception of the engine is an observable, not a harness failure
             if kind not in ('update', 'step'):
                 raise
             msg = str(e).replace('\n', ' ')[:80] if e.__class__.__name__ == 'BoboProducerError' else ''
             err, ret = f'{e.__class__.__name__} {msg}'.strip(), '-'
-            line = 'update' if kind == 'update' else f'step {op[1]}'
         for c, h, u in self.script:
             line += f' dec {len(c)} {len(h)} {len(u)}'
             for r in c + h + u:
@@ -322,7 +359,7 @@ class Rig(BoboReceiverSubscriber, BoboDeciderSubscriber, BoboProducerSubscriber,
                + ' | cx ' + show_events([c for c, _ in self.complexes[marks[1]:]])
                + ' | ac ' + show_events(self.actions[marks[2]:])
                + ' | ex ' + (';'.join(f'{n}@{e.event_id}' for n, e, _ in ex) if ex else '-')
-               + f' | err {err} | script ok | ret {ret}')
+               + f' | err {err} | script ok | ret {ret}' + self.out_suffix(op))
         return line, out, (before, after, len(ex), err)
 
 
@@ -358,8 +395,10 @@ def step_oracle(op, info):
     return None
 
 
-def final_oracle(rig: Rig):
-    """returns [(sig, what)] after the engine was drained."""
+def final_oracle(rig: Rig, ordered_exec=True):
+    """returns [(sig, what)] after the engine was drained.  ordered_exec=False (asynchronous handlers): the execute()
+    calls happen in the pool's completion order, so they are matched with the complex events as a multiset of objects;
+    action events still follow the execute() calls one by one (the response queue is FIFO)."""
     out = []
     sz = rig.sizes()
     if any(sz):
@@ -408,9 +447,21 @@ def final_oracle(rig: Rig):
     # 3. complex -> executions
     want_ex = [e for e in cx if e.phenomenon_name in rig.fwd_phens and rig.fwd_phens[e.phenomenon_name].action is not None]
     got_ex = [e for _n, e, _r in rig.exec_log]
-    if len(want_ex) != len(got_ex) or any(a is not b for a, b in zip(want_ex, got_ex)):
+    if not ordered_exec and len(want_ex) == len(got_ex):
+        # every wanted complex event executed exactly once (objects, not equality), in whatever order
+        rest = list(got_ex)
+        for e in want_ex:
+            k = next((i for i, g in enumerate(rest) if g is e), None)
+            if k is None:
+                rest = None
+                break
+            rest.pop(k)
+        bad_ex = rest is None or bool(rest)
+    else:
+        bad_ex = len(want_ex) != len(got_ex) or any(a is not b for a, b in zip(want_ex, got_ex))
+    if bad_ex:
         out.append(('execute-count', f'{len(want_ex)} complex events of phenomena with an action, {len(got_ex)} execute() calls '
-                                     f'(or not with those events in order)'))
+                                     f'(or not with those events' + (' in order)' if ordered_exec else ', each exactly once)')))
     else:
         for (n, e, _r) in rig.exec_log:
             if n != rig.fwd_phens[e.phenomenon_name].action.name:
@@ -607,6 +658,419 @@ def all_cases(ctx: Ctx):
         yield gen_case(rng, [0, 0, 0, 0, 1], 'simple')
 
 
+# --------------------------------------------------------------------------
+# the asynchronous handlers: real handler objects, deterministic pool (tie with `bobodrv engineA`)
+# --------------------------------------------------------------------------
+
+class DummyAsyncResult:
+    """what the recording pool returns from starmap_async (the forwarder drops it)."""
+
+    def ready(self):
+        return False
+
+
+class RecordingPool:
+    """
+    test double of multiprocessing.pool.ThreadPool / multiprocessing.Pool: `starmap_async` only RECORDS the job;
+    nothing runs until the harness's `complete k` pops the k-th recorded job and calls fn(*args) itself.
+    """
+
+    def __init__(self, processes=None, *a, **k):
+        self.jobs = []        # (fn, args) submitted and not yet run, in submission order
+        self.submitted = []   # every (fn, args) ever submitted
+        self.closed = False
+        self.joined = False
+
+    def starmap_async(self, fn, iterable, *a, **k):
+        for args in list(iterable):
+            self.jobs.append((fn, tuple(args)))
+            self.submitted.append((fn, tuple(args)))
+        return DummyAsyncResult()
+
+    def close(self):
+        self.closed = True
+
+    def join(self):
+        self.joined = True
+
+    def terminate(self):
+        self.closed = True
+
+
+class LocalManager:
+    """stands in for multiprocessing.Manager() while a BoboActionHandlerMultiprocessing is constructed: an in-process queue."""
+
+    def Queue(self, *a, **k):
+        import queue
+        return queue.Queue(*a, **k)
+
+    def shutdown(self):
+        pass
+
+
+def make_async_handler(kind):
+    """a REAL BoboActionHandlerMultithreading ('mt') / BoboActionHandlerMultiprocessing ('mp') whose pool is a
+    RecordingPool.  The handler classes import their pool classes inside __init__, so the names are swapped in the
+    multiprocessing modules for the duration of the constructor call only (no thread / process is ever started)."""
+    import multiprocessing
+    import multiprocessing.pool as mpp
+    from bobocep.cep.action.handler import BoboActionHandlerMultithreading, BoboActionHandlerMultiprocessing
+    if kind == 'mt':
+        saved = mpp.ThreadPool
+        mpp.ThreadPool = RecordingPool
+        try:
+            h = BoboActionHandlerMultithreading(threads=2, max_size=0)
+        finally:
+            mpp.ThreadPool = saved
+    elif kind == 'mp':
+        saved = (multiprocessing.Pool, multiprocessing.Manager)
+        multiprocessing.Pool, multiprocessing.Manager = RecordingPool, LocalManager
+        try:
+            h = BoboActionHandlerMultiprocessing(processes=2, max_size=0)
+        finally:
+            multiprocessing.Pool, multiprocessing.Manager = saved
+    else:
+        raise ValueError(kind)
+    if not isinstance(h._pool, RecordingPool):   # the constructor got its pool some other way: replace it afterwards
+        real = h._pool
+        real.terminate()
+        real.join()
+        h._pool = RecordingPool()
+    return h
+
+
+def show_pool(script):
+    return '-' if not script else ';'.join(','.join(str(k) for k in g) if g else '_' for g in script)
+
+
+class RigA(Rig):
+    """the real engine with a real asynchronous handler over a RecordingPool.  Operations in addition to Rig's:
+       ['complete', k]            the pool finishes the k-th job in flight (out of range: nothing happens)
+       ['update', script] / ['step', T, script]
+                                  completions INSIDE the call: the head group of `script` is popped and completed
+                                  right before every task.update() call and between the forwarder's
+                                  _update_handler() and _update_responses() (instance-level wrappers) — the
+                                  linearisation points of Model/EngineAsync.lean `stepA`."""
+
+    def __init__(self, case):
+        self.pool_script = []
+        self.job_errors = []
+        super().__init__(case)
+        self.pool = self.handler._pool
+        eng = self.eng
+        for t in (eng.receiver, eng.decider, eng.producer, eng.forwarder):
+            def upd(orig=t.update):
+                self.pool_point()
+                return orig()
+            t.update = upd
+        orig_resp = eng.forwarder._update_responses
+
+        def resp():
+            self.pool_point()
+            return orig_resp()
+        eng.forwarder._update_responses = resp
+
+    def make_handler(self, case):
+        return make_async_handler(case['handler'])
+
+    def pool_point(self):
+        if self.pool_script:
+            for k in self.pool_script.pop(0):
+                self.complete(k)
+
+    def complete(self, k):
+        """what a pool worker does with the k-th pending job; an exception stays in the worker (AsyncResult)."""
+        jobs = self.pool.jobs
+        if 0 <= k < len(jobs):
+            fn, args = jobs.pop(k)
+            try:
+                fn(*args)
+            except Exception as e:
+                self.job_errors.append(f'{e.__class__.__name__}: {e}')
+                return f'{e.__class__.__name__}'
+        return '-'
+
+    def inflight(self):
+        return len(self.pool.jobs)
+
+    def begin_op(self, op):
+        script = op[2] if op[0] == 'step' and len(op) > 2 else op[1] if op[0] == 'update' and len(op) > 1 else []
+        self.pool_script = [list(g) for g in script]
+        return f' pool {show_pool(script)}' if script else ''
+
+    def do_other(self, op):
+        if op[0] != 'complete':
+            raise ValueError(op)
+        err = self.complete(op[1])
+        return f'complete {op[1]}', err
+
+    def out_suffix(self, op):
+        js = self.pool.jobs
+        s = f' | fl {len(js)} ' + (';'.join(f'{a[1].name}@{a[2].event_id}' for _f, a in js) if js else '-')
+        if op[0] in ('update', 'step'):
+            s += f' | pool {len(self.pool_script)}'
+        return s
+
+
+def step_oracle_async(op, info, fl0, fl1):
+    """step_oracle for the asynchronous handler: `nex` executions happened inside the call (pool script), each of them
+    put one response; the forwarder's own call dispatches (never executes) at most one job and takes at most one response."""
+    (r0, d0, p0, f0, h0), (r1, d1, p1, f1, h1), nex, err = info
+    if err != '-':
+        return None
+    if op[1] != 'F':
+        w = step_oracle(op, ((r0, d0, p0, f0, h0), (r1, d1, p1, f1, h1 - nex), nex, err))
+        if w is None and fl1 != fl0 - nex:
+            w = f'{op[1]}.update(): jobs in flight {fl0} -> {fl1} with {nex} completions'
+        return w
+    popped = 1 if f0 > 0 else 0
+    disp = fl1 - fl0 + nex
+    resp = h0 + nex - h1
+    if f1 != f0 - popped or not (0 <= disp <= popped) or not ((1 if h0 > 0 else 0) <= resp <= 1) or r1 != r0 + resp \
+            or (d1, p1) != (d0, p0):
+        return (f'forwarder.update(): sizes {info[0]} -> {info[1]}, jobs in flight {fl0} -> {fl1}, '
+                f'{nex} completions inside the call')
+    return None
+
+
+def dispatch_oracle(rig: RigA):
+    """every complex event of a phenomenon with an action was handed to the pool exactly once, in the order the
+    forwarder took them, as _pool_execute_action(handler queue, the phenomenon's action, the event, max_size)."""
+    import bobocep.cep.action.handler as hmod
+    cx = [c for c, _ in rig.complexes]
+    want = [e for e in cx if e.phenomenon_name in rig.fwd_phens and rig.fwd_phens[e.phenomenon_name].action is not None]
+    sub = rig.pool.submitted
+    if len(sub) != len(want):
+        return f'{len(want)} complex events of phenomena with an action, {len(sub)} jobs submitted to the pool'
+    for e, (fn, args) in zip(want, sub):
+        if fn is not hmod._pool_execute_action or len(args) != 4:
+            return f'job submitted for {show_event(e)} is not _pool_execute_action(queue, action, event, max_size)'
+        q, act, ev, ms = args
+        if q is not rig.handler._get_queue() or act is not rig.fwd_phens[e.phenomenon_name].action or ev is not e or ms != 0:
+            return f'job submitted for {show_event(e)} carries queue/action/event/max_size = ' \
+                   f'{q is rig.handler._get_queue()}/{getattr(act, "name", act)}/{show_event(ev)}/{ms}'
+    return None
+
+
+class AsyncRun:
+    """one case of the asynchronous family, op by op (so that a generator can look at the state before choosing)."""
+
+    def __init__(self, case):
+        self.case = case
+        self.rig = rig = RigA(case)
+        self.lines, self.outs, self.viol = [], [], []
+        self.ops = []
+        self.raised = False
+        self.completes = self.ooo = self.noop = self.inside = self.max_fl = 0
+        tR, tD, tP, tF, early = case['cfg']
+        self.lines.append(f"cfg {tR} {tD} {tP} {tF} {early} {case['validator']} {case.get('local_only', 1)}")
+        self.outs.append('ok')
+        for ph in case['phens']:
+            self.lines.append(f"phen {ph['name']} {ph['where']} {ph['dg']} {ph['act']}")
+            self.outs.append('ok')
+
+    def do(self, op):
+        rig = self.rig
+        fl0, nerr = rig.inflight(), len(rig.job_errors)
+        line, out, info = rig.do(op)
+        fl1 = rig.inflight()
+        self.ops.append(op)
+        self.lines.append(line)
+        self.outs.append(out)
+        self.max_fl = max(self.max_fl, fl1)
+        if op[0] == 'complete':
+            if info[2]:
+                self.completes += 1
+                if op[1] != 0:
+                    self.ooo += 1
+            else:
+                self.noop += 1
+        elif op[0] in ('update', 'step'):
+            self.inside += info[2]
+            if info[3] != '-':
+                self.raised = True
+            if op[0] == 'step':
+                w = step_oracle_async(op, info, fl0, fl1)
+                if w:
+                    self.viol.append(('update-not-one-item', w))
+        if len(rig.job_errors) > nerr:
+            self.viol.append(('job-raised', f'_pool_execute_action raised in the pool: {rig.job_errors[-1]}'))
+
+    def finish(self):
+        """complete everything in flight (last dispatched first), then engine updates, until nothing is left anywhere."""
+        rig = self.rig
+        bound = 40 + 8 * len(self.ops)
+        n = 0
+        while (any(rig.sizes()) or rig.inflight()) and n < bound:
+            guard = rig.inflight() + 1
+            while rig.inflight() and guard:
+                self.do(['complete', rig.inflight() - 1])
+                guard -= 1
+            self.do(['update'])
+            n += 1
+        case = dict(self.case, ops=self.ops)
+        viol = self.viol
+        misconfigured = any(p['where'] != 'B' for p in case['phens'])
+        if not misconfigured:
+            if self.raised:
+                viol.append(('engine-raised', 'an update() raised on a well-formed setup: '
+                             + next(o.split(' | err ')[1].split(' | ')[0] for o in self.outs if ' | err ' in o and ' | err - ' not in o)))
+            if rig.inflight():
+                viol.append(('stranded', f'{rig.inflight()} jobs still in flight after completing everything'))
+            viol += final_oracle(rig, ordered_exec=False)
+            w = dispatch_oracle(rig)
+            if w:
+                viol.append(('dispatch', w))
+        stats = {'completed': sum(len(c) for c, _, _, _ in rig.notifs), 'exec': len(rig.exec_log), 'action': len(rig.actions),
+                 'complex': len(rig.complexes), 'drain_updates': n, 'completes': self.completes, 'out_of_order': self.ooo,
+                 'noop_completes': self.noop, 'inside_update': self.inside, 'max_inflight': self.max_fl,
+                 'order_differs': [id(e) for _n, e, _r in rig.exec_log] != [id(a[2]) for _f, a in rig.pool.submitted][:len(rig.exec_log)]}
+        return case, self.lines, self.outs, [('async-' + s, w) for s, w in viol], stats
+
+
+def run_case_async(case):
+    r = AsyncRun(case)
+    for op in case['ops']:
+        r.do(op)
+    return r.finish()
+
+
+def gen_pool_script(rng, fl):
+    hi = max(2, fl + 1)
+    return [[rng.randint(0, hi) for _ in range(rng.choice((0, 1, 1, 1, 2)))] for _ in range(rng.randint(1, 6))]
+
+
+def gen_run_async(rng, cfg, build, handler):
+    """generate AND run one case: `complete k` is drawn from the range of jobs actually in flight at that moment
+    (rarely beyond it); the concrete operations end up in the case, which is therefore replayable as it is."""
+    base = gen_case(rng, cfg, build)
+    # phenomena mostly with an action: the interesting part is the pool
+    for i, ph in enumerate(base['phens']):
+        if ph['act'] == '-' and rng.random() < 0.6:
+            ph['act'] = rng.choice((f'a{i}:t', f'a{i}:f', f'a{i}:h'))
+    if rng.random() < 0.6:
+        # a busy first phenomenon (a one-block pattern most data complete), so that several jobs are in flight at once
+        ph = base['phens'][0]
+        ph['patterns'][0] = dict(ph['patterns'][0], blocks=[['fb', [rng.choice(('ne', 'lt')), rng.randint(1, 3)]]], halt=None)
+        if ph['act'] == '-':
+            ph['act'] = rng.choice(('a0:t', 'a0:f', 'a0:h'))
+    case = dict(base, handler=handler, ops=[])
+    r = AsyncRun(case)
+    fine = build == 'hand' and rng.random() < 0.25
+    scripted = rng.random() < 0.4
+    lazy = rng.random() < 0.5       # a slow pool: completions are rare, jobs pile up
+    nxt = 0
+    for _ in range(rng.randint(8, 30)):
+        x = rng.random()
+        fl = r.rig.inflight()
+        if x < 0.45:
+            q = rng.random()
+            if q < 0.88:
+                op = ['add', 'raw', f'i{rng.randint(0, 3)}']
+            elif q < 0.92:
+                op = ['add', 'raw', 'none']
+            elif q < 0.96:
+                op = ['add', 'raw', 's' + rng.choice('ab')]
+            else:
+                op = ['add', 'sev', f'x{nxt}', 100 + nxt, rng.choice(('none', f'i{rng.randint(0, 3)}', 'sa'))]
+                nxt += 1
+        elif x < (0.52 if lazy else 0.65) and (fl or rng.random() < 0.05):
+            if fl and rng.random() < 0.95:
+                # prefer anything but the oldest job, so that completion order differs from dispatch order
+                k = rng.randint(1, fl - 1) if fl > 1 and rng.random() < 0.6 else rng.randint(0, fl - 1)
+            else:
+                k = fl + rng.randint(0, 2)
+            op = ['complete', k]
+        elif fine and x < 0.9:
+            op = ['step', rng.choice('RDPFFF')]
+            if scripted and rng.random() < 0.5:
+                op.append(gen_pool_script(rng, fl)[:2])
+        else:
+            op = ['update']
+            if scripted and rng.random() < 0.6:
+                op.append(gen_pool_script(rng, fl))
+        r.do(op)
+    return r.finish()
+
+
+def fixed_cases_async():
+    one = {'name': 'pa', 'blocks': [['fb', ['eq', 1]]], 'halt': None}
+    hier = {'name': 'pq', 'blocks': [['fb', ['cx', 'p0']], ['fb', ['ac', 'p0']]], 'halt': None}
+    phens = [{'name': 'p0', 'where': 'B', 'dg': 'cnt', 'act': 'a0:t', 'patterns': [one]},
+             {'name': 'p1', 'where': 'B', 'dg': '-', 'act': 'a1:h', 'patterns': [hier]}]
+    for handler in ('mt', 'mp'):
+        for cfg in ([0, 0, 0, 0, 1], [1, 1, 1, 1, 1], [2, 1, 0, 2, 0]):
+            b = 'simple' if cfg == [0, 0, 0, 0, 1] else 'hand'
+            # three jobs in flight, completed 2nd, 3rd, 1st; one completion between the forwarder's two halves
+            yield {'build': b, 'cfg': cfg, 'validator': 'all', 'local_only': 1, 'handler': handler, 'phens': phens,
+                   'ops': [['add', 'raw', 'i1'], ['add', 'raw', 'i1'], ['add', 'raw', 'i1']] + [['update']] * 4
+                          + [['complete', 1], ['complete', 1], ['complete', 5], ['update'], ['complete', 0], ['update'],
+                             ['add', 'raw', 'i1'], ['update'], ['update'], ['update'], ['update', [[], [], [], [], [0]]],
+                             ['step', 'F', [[], [0]]], ['update']]}
+    # a forwarder whose phenomena list lacks the phenomenon: nothing is dispatched
+    yield {'build': 'hand', 'cfg': [0, 0, 0, 0, 1], 'validator': 'all', 'local_only': 1, 'handler': 'mt',
+           'phens': [{'name': 'p0', 'where': 'P', 'dg': 'cnt', 'act': 'a0:t', 'patterns': [one]}],
+           'ops': [['add', 'raw', 'i1'], ['update'], ['complete', 0], ['update']]}
+
+
+def async_tie_cases(ctx: Ctx):
+    """yields finished runs (case, lines, outs, viol, stats) of the asynchronous family."""
+    if ctx.replay is not None:
+        yield run_case_async(ctx.replay['replay'])
+        return
+    d = CORPUS / 'C02' / 'async'
+    if d.is_dir():
+        for p in sorted(d.glob('*.json')):
+            yield run_case_async(json.loads(p.read_text()))
+    for c in fixed_cases_async():
+        yield run_case_async(c)
+    rng = ctx.rng
+    for cfg in ALL_CFGS:
+        for _ in range(16 if ctx.thorough else 2):
+            yield gen_run_async(rng, cfg, 'hand', 'mp' if rng.random() < 0.25 else 'mt')
+    for _ in range(1500 if ctx.thorough else 150):
+        yield gen_run_async(rng, [0, 0, 0, 0, 1], 'simple', 'mp' if rng.random() < 0.25 else 'mt')
+
+
+def async_tie(ctx: Ctx, res: Result):
+    """the asynchronous family: oracle on the real engine + op-by-op comparison with `bobodrv engineA`."""
+    runs = list(async_tie_cases(ctx))
+    all_lines, all_outs, owner = [], [], []
+    for k, (case, lines, outs, viol, st) in enumerate(runs):
+        res.add_case(case, nontrivial=st['exec'] > 0)
+        res.count('asyncA_cases')
+        res.count('asyncA_handler_' + case['handler'])
+        res.count('asyncA_build_' + case['build'])
+        res.count('asyncA_executions', st['exec'])
+        res.count('asyncA_action_events', st['action'])
+        res.count('asyncA_completions_between_calls', st['completes'])
+        res.count('asyncA_completions_not_of_the_oldest_job', st['out_of_order'])
+        res.count('asyncA_completions_out_of_range', st['noop_completes'])
+        res.count('asyncA_completions_inside_update_or_step', st['inside_update'])
+        res.count('asyncA_cases_max_inflight_ge_2' if st['max_inflight'] >= 2 else 'asyncA_cases_max_inflight_lt_2')
+        if any(o[0] == 'step' for o in case['ops']):
+            res.count('asyncA_cases_with_single_task_steps')
+        if st['order_differs']:
+            res.count('asyncA_cases_execution_order_differs_from_dispatch_order')
+        for sig, what in viol:
+            res.violations.append(Violation(sig=sig, what=what, replay=case))
+        all_lines += lines
+        all_outs += outs
+        owner += [k] * len(lines)
+    if ctx.model_available():
+        model_out = run_model('engineA', all_lines)
+        res.traces_validated += len(runs)
+        bad_cases = set()
+        for i, (a, b) in enumerate(zip(model_out, all_outs)):
+            if a != b and owner[i] not in bad_cases:
+                bad_cases.add(owner[i])
+                res.disagreements.append({'case': runs[owner[i]][0], 'op': all_lines[i], 'model': a, 'impl': b})
+                if len(bad_cases) > 5:
+                    break
+    else:
+        res.disagreements.append({'correspondence': 'engineA', 'error': 'model driver did not build'})
+
+
 def replay_notes(res: Result):
     """the honest negatives, replayed on the real engine on every run (not violations)."""
     rig = Rig(witness_times0())
@@ -628,8 +1092,10 @@ def replay_notes(res: Result):
 
 def run(ctx: Ctx) -> Result:
     res = Result()
+    rp = ctx.replay['replay'] if ctx.replay is not None else None
+    rp_tie = isinstance(rp, dict) and rp.get('handler') in ('mt', 'mp')     # a replay of the asynchronous tie family
     if ctx.replay is not None:
-        cs = [ctx.replay['replay']] if not ctx.replay['replay'].get('async') else []
+        cs = [rp] if not rp.get('async') and not rp_tie else []
     else:
         cs = list(all_cases(ctx))
         replay_notes(res)
@@ -660,7 +1126,7 @@ def run(ctx: Ctx) -> Result:
         all_outs += outs
         owner += [k] * len(lines)
     if ctx.model_available():
-        model_out = run_model('engine', all_lines)
+        model_out = run_model('engine', all_lines) if all_lines else []     # (a replay of another family: nothing to pipe)
         res.traces_validated = len(cs)
         bad_cases = set()
         for i, (a, b) in enumerate(zip(model_out, all_outs)):
@@ -672,7 +1138,9 @@ def run(ctx: Ctx) -> Result:
     else:
         res.notes.append('model driver unavailable: correspondence not run')
         res.disagreements.append({'correspondence': 'engine', 'error': 'model driver did not build'})
-    if ctx.replay is None or (isinstance(ctx.replay.get('replay'), dict) and ctx.replay['replay'].get('async')):
+    if ctx.replay is None or rp_tie:
+        async_tie(ctx, res)
+    if ctx.replay is None or (isinstance(rp, dict) and rp.get('async')):
         async_handler_cases(ctx, res)
     return res
 
@@ -725,6 +1193,7 @@ def async_handler_cases(ctx: Ctx, res: Result):
             fwd.subscribe(Sub())
             stream = [0, 1, 0, 0, 1, 1]
             want = 3 if True else 0
+            raised = None
             try:
                 for d in stream:
                     rec.add_data(d)
@@ -738,6 +1207,8 @@ def async_handler_cases(ctx: Ctx, res: Result):
                     _time.sleep(0.005)
                 for _ in range(20):
                     eng.update()
+            except Exception as e:               # an exception of the engine is a finding, not a harness failure
+                raised = f'{e.__class__.__name__}: {e}'
             finally:
                 gate.set()
                 handler.close()
@@ -745,7 +1216,9 @@ def async_handler_cases(ctx: Ctx, res: Result):
             case = {'async': True, 'cfg': list(cfg), 'threads': threads, 'stream': stream}
             res.add_case(case, nontrivial=True)
             res.count('async_handler_cases')
-            if len(executed) != want:
+            if raised is not None:
+                res.violations.append(Violation('engine-raised', f'multithreading handler: engine.update() raised on a well-formed setup: {raised}', case))
+            elif len(executed) != want:
                 res.violations.append(Violation('execute-count', f"multithreading handler: {len(executed)} executions for {want} completed runs", case))
             elif len(actions) != want or handler.size() != 0:
                 res.violations.append(Violation(
@@ -772,6 +1245,13 @@ def search(ctx: Ctx) -> Result:
             if viol:
                 res.violations.append(Violation(viol[0][0], viol[0][1], case))
                 return res
+        for cfg in ALL_CFGS + [[0, 0, 0, 0, 1]] * 60:
+            case, _l, _o, viol, _st = gen_run_async(rng, cfg, 'simple' if cfg == [0, 0, 0, 0, 1] else 'hand',
+                                                    'mp' if rng.random() < 0.25 else 'mt')
+            res.evaluations += 1
+            if viol:
+                res.violations.append(Violation(viol[0][0], viol[0][1], case))
+                return res
     return res
 
 
@@ -786,20 +1266,39 @@ SPEC = PropSpec(
          '(followed_by / next / loop / optional, int predicates, predicates on complex and action events of earlier phenomena, '
          'halt conditions, singleton), datagen none/cnt/grp/const, action none/t/f/h, validator all/int/intstr, 3-14 operations '
          '(add int / None / str / ready-made simple event; engine update; single task update), then engine updates until every queue '
-         'is empty.  A case is non-trivial when at least one run completed or halted.',
+         'is empty.  A case is non-trivial when at least one run completed or halted.  '
+         'Asynchronous family (compared with the second driver, engineA): hand-written out-of-order scenarios for both handler classes, '
+         'then 2 (quick) / 16 (thorough) seeded scenarios per engine configuration built by hand plus 150 / 1500 through BoboSetupSimple, '
+         'real BoboActionHandlerMultithreading (3/4) or BoboActionHandlerMultiprocessing (1/4) over a recording pool: phenomena as above '
+         '(60%: a busy one-block first phenomenon with an action), 8-30 operations generated WHILE running: add, engine update or single '
+         'task update (40% of the cases: with a pool script of 1-6 groups of 0-2 job indices completed inside the call), complete k with '
+         'k among the jobs in flight at that moment (60%: not the oldest; 5%: out of range), then complete-everything (newest first) + '
+         'engine update until pool, handler queue and task queues are empty.  Non-trivial when at least one action was executed.',
     trusted_base=['the matcher (BoboDecider._process_event and everything below it) is a parameter of the model: its outputs are recorded '
                   'on the real decider through an instance-level wrapper and scripted into the Lean driver',
-                  'the ghost (history) fields of the model are never read by the model (theorem ghost_free)'],
+                  'the ghost (history) fields of the model are never read by the model (theorem ghost_free)',
+                  'asynchronous family: the pool (multiprocessing.pool.ThreadPool / multiprocessing.Pool / Manager().Queue) is replaced by '
+                  'a recording double; that a real pool runs each submitted job exactly once, at some moment, on some thread, is the '
+                  'assumption under which Model/EngineAsync.lean quantifies over every completion order and moment (C20 monitors real pools); '
+                  'completions inside an engine update are placed at the model\'s linearisation points by instance-level wrappers of '
+                  'task.update and forwarder._update_responses'],
     assumptions=['engine and tasks are not closed; every max_size is 0 (unbounded queues); gen_event is None',
                  'add_data and update() calls are interleaved at the granularity of one task update() (each runs under the task lock); '
                  'theorems hold for every such interleaving, the harness samples engine-level and task-level interleavings on one thread',
                  'validator, datagen and action are pure functions that do not raise; one id generator and one timestamp generator shared by '
                  'receiver, producer and forwarder (as BoboSetupSimple builds them)',
-                 'BoboActionHandlerBlocking only (asynchronous handlers: see C20)',
+                 'BoboActionHandlerBlocking, BoboActionHandlerMultithreading, BoboActionHandlerMultiprocessing; for the two asynchronous '
+                 'ones: the pool runs every submitted job exactly once at an arbitrary moment (between two calls of the engine, or inside an '
+                 'engine update where it linearises before a task update() or between the forwarder\'s handle and response halves), actions do '
+                 'not raise in the pool, no pickling effects (multiprocessing: action, event and response survive the process boundary '
+                 'unchanged; see C20)',
                  '"not left stranded" = continued update() calls service every queue (DESIGN 4.C02); single-call draining with times=0 is '
                  'false of the code (times0_does_not_drain) and is not claimed'],
     model_covers='BoboEngine.__init__ wiring and BoboEngine.update loop shape (generated + proved equal), BoboReceiver.add_data/update/'
                  '_process_data/on_producer_update/on_forwarder_update, BoboDecider.update queue handling and notification rule, '
                  'BoboProducer.update/on_decider_update/_handle_completed_run, BoboForwarder.update/_update_handler/_update_responses/'
-                 'on_producer_update, BoboActionHandlerBlocking._execute_action/get_handler_response',
+                 'on_producer_update, BoboActionHandlerBlocking._execute_action/get_handler_response; Model/EngineAsync.lean: '
+                 'BoboActionHandlerMultithreading/BoboActionHandlerMultiprocessing._execute_action (max_size 0: submit, do not run), '
+                 '_pool_execute_action (execute, build the response, put it), get_handler_response/size on their queue, and the same '
+                 'forwarder / engine loop over them with pool completions at any moment',
 )
